@@ -180,6 +180,53 @@ theorem run_received : ∀ (ops : List (Bytes × Env)) (s : Fwd),
     rw [ih, trySend_received]
     cases h : (trySend s p e).2 <;> simp [okSent, List.append_assoc]
 
+/-! ## the payload loop with its counters (`cycle`) -/
+
+/-- total bytes of a list of payloads -/
+def totalLen (ps : List Bytes) : Nat := (ps.map List.length).sum
+
+theorem run_length : ∀ (ops : List (Bytes × Env)) (s : Fwd), (run s ops).2.length = ops.length := by
+  intro ops
+  induction ops with
+  | nil => intro s; rfl
+  | cons op ops ih => intro s; obtain ⟨p, e⟩ := op; simp only [run, List.length_cons]; rw [ih]
+
+theorem cycle_state : ∀ (ops : List (Bytes × Env)) (s : Fwd) (c : SendCounts), (cycle s c ops).1 = (run s ops).1 := by
+  intro ops
+  induction ops with
+  | nil => intro s c; rfl
+  | cons op ops ih => intro s c; obtain ⟨p, e⟩ := op; simp only [cycle, run]; rw [ih]
+
+/-- the counters after the loop, from ANY starting counters and ANY client state: each counter grew by exactly what
+    the per-payload results say -/
+theorem cycle_counts_from : ∀ (ops : List (Bytes × Env)) (s : Fwd) (c : SendCounts),
+    (cycle s c ops).2.packetsSent = c.packetsSent + (okSent ops (run s ops).2).length
+    ∧ (cycle s c ops).2.bytesSent = c.bytesSent + totalLen (okSent ops (run s ops).2)
+    ∧ (cycle s c ops).2.packetsSent + (cycle s c ops).2.packetsDropped = c.packetsSent + c.packetsDropped + ops.length
+    ∧ (cycle s c ops).2.bytesSent + (cycle s c ops).2.bytesDropped
+        = c.bytesSent + c.bytesDropped + totalLen (ops.map (·.1))
+    ∧ (cycle s c ops).2.packetsDroppedWriter + c.packetsDropped = c.packetsDroppedWriter + (cycle s c ops).2.packetsDropped
+    ∧ (cycle s c ops).2.bytesDroppedWriter + c.bytesDropped = c.bytesDroppedWriter + (cycle s c ops).2.bytesDropped := by
+  intro ops
+  induction ops with
+  | nil => intro s c; simp [cycle, okSent, totalLen]
+  | cons op ops ih =>
+    intro s c
+    obtain ⟨p, e⟩ := op
+    simp only [cycle, run]
+    obtain ⟨h1, h2, h3, h4, h5, h6⟩ := ih (trySend s p e).1 (track c p.length (trySend s p e).2)
+    cases h : (trySend s p e).2 with
+    | none =>
+      rw [h] at h1 h2 h3 h4 h5 h6
+      simp only [track, trackFailed] at h1 h2 h3 h4 h5 h6 ⊢
+      simp only [okSent, totalLen, List.map_cons, List.sum_cons, List.length_cons] at h1 h2 h3 h4 h5 h6 ⊢
+      refine ⟨h1, h2, ?_, ?_, ?_, ?_⟩ <;> omega
+    | some n =>
+      rw [h] at h1 h2 h3 h4 h5 h6
+      simp only [track, trackOk] at h1 h2 h3 h4 h5 h6 ⊢
+      simp only [okSent, totalLen, List.map_cons, List.sum_cons, List.length_cons] at h1 h2 h3 h4 h5 h6 ⊢
+      refine ⟨?_, ?_, ?_, ?_, h5, h6⟩ <;> omega
+
 /-! ## the receiver's de-framing -/
 
 theorem le32val_le32 (n : Nat) (h : n < 4294967296) :
